@@ -630,6 +630,18 @@ fn run_inner<'a>(
             }
             Err(c) => return Err(caught(prop, "parse_metadata", c)),
         }
+        if !m.has_fend() {
+            // the raw element is over, so the last frame of a pre-3.0 game is complete even without a Game End
+            cur.closed = cur.opened;
+            ctx.probe_if(m.end.is_none() && !m.occs.is_empty(), "pre-3.0 game without Game End: metadata closes the last frame");
+            // its row view must work as well
+            if flags.row_view && cur.closed > 0 {
+                let r = cur.closed - 1;
+                let fr = guarded(|| state.frame(r)).map_err(|c| caught(prop, "ParseState::frame", c))?;
+                let n = check_row_view(state.frames(), r, &fr, m.v).map_err(|f| fail_to_v(prop, f))?;
+                ctx.checks(n);
+            }
+        }
     }
     ctx.check();
 
